@@ -60,6 +60,7 @@ func (c *consumer) run() {
 			return
 		}
 		evt, ok := dsim.Recv2("events", n.Events())
+		dsim.EnsureReleased("consumer") // woken inside the receive: become the released task again
 		if !ok {
 			c.ended = true
 			dsim.Record("evt-end", "", nil)
